@@ -7,19 +7,33 @@
 //
 // Line protocol (exactly one output line per input line):
 //   case <n>                          -> "case <n>"
-//   shape <s> [init <writes>]         -> "ok"      s in ts tsb2 tsb3 tsbn tsl2 tss tsd
-//   c <writes> | c -                  -> "t=<time> cyc=<0|1> w=<delta|-> r=<delta|-> v=<value|->"
+//   shape <s> [init <writes>|{}] [loop] [probe <t>]
+//                                     -> "ok"      s in ts tsb2 tsb3 tsbn tsl2 tss tsd tsbs (tsbs = TSB{a:TS<Int>, s:TSS<Int>})
+//                                         init {}  : the declared initial delta is the canonical EMPTY delta of the shape
+//                                                    (not for ts: a typed-null initial delta is rejected at wiring)
+//                                         loop     : (ts tss tsd) self loop instead of the line:
+//                                                      x (scripted TS<Int>) --> body(x, passive(fb())) --> feedback sink
+//                                                    the body has the DEFAULT validity gate (both inputs valid) and computes
+//                                                      ts : out = prev + x      tss : out = prev U {x}      tsd : out = prev (+) {x % 3 : x}
+//                                                    `c` lines are then  c 0=<x>  (x >= 0) | c -   and  w = the body's delta
+//                                         probe t  : the recorder on the feedback port is ALSO evaluated at time t (it schedules
+//                                                    itself), so the port's validity is visible without a tick
+//   c <writes> | c -                  -> "t=<time> cyc=<0|1> w=<delta|-> r=<delta|-> v=<value|invalid|->"
 //                                         the i-th `c` line is the cycle at time MIN_ST + i (consecutive smallest steps);
 //                                         cyc: the engine ran a cycle at that time (lifecycle observer);
-//                                         w: delta seen by the recorder on the producer, r/v: delta / value seen by the
-//                                         recorder on the feedback port ("-" = recorder not evaluated in that cycle)
+//                                         w: delta seen by the recorder on the producer ("-" = did not tick);
+//                                         r: delta seen by the recorder on the feedback port ("-" = port not modified);
+//                                         v: value of the feedback port when its recorder was evaluated (tick or probe),
+//                                            "invalid" when the port is not valid, "-" = recorder not evaluated
 //   run                               -> "ok extra=<engine cycles at times not listed>" | "err:<class>"
 //                                         the last `c` line is the last cycle that can run (end_time = its time + MIN_TD,
 //                                         exclusive): a write in it has no delivery cycle
 // writes : comma separated   p=v  (position p: TS 0; TSB field index, nested TSBs flattened; TSL element index; TSD key)
 //                            +e / -e (TSS add / remove element e)        -k (TSD erase key k)
+//                            tsbs: 0=v (field a), +e / -e (field s); an initial delta may carry -e / -k too
 // delta  : "{" sorted tokens "}"   p=v  (position ticked with value v)   +e (added)   -e / -k (removed)
-// value  : "{" sorted tokens "}"   p=v  (valid positions)  /  e (TSS members)
+//                                  tsbs: s (field s ticked) before its +e / -e
+// value  : "{" sorted tokens "}"   p=v  (valid positions)  /  e (TSS members) / tsbs: s (field s valid) before its members
 #include "hgv_common.h"
 
 #include <hgraph/lib/std/std_operators.h>
@@ -48,13 +62,16 @@ namespace
     using S_tsl2 = TSL<TS<Int>, 2>;
     using S_tss  = TSS<Int>;
     using S_tsd  = TSD<Int, TS<Int>>;
+    using S_tsbs = UnNamedTSB<Field<"a", TS<Int>>, Field<"s", TSS<Int>>>;   // a bundle WITH a collection field
 
     // one write token
     struct W { char op; std::int64_t p; std::int64_t v; };   // op: '=' set, '+' add, '-' remove
     using Writes = std::vector<W>;
 
     std::vector<std::optional<Writes>> g_script;   // per cycle
-    std::optional<Writes>              g_init;
+    std::optional<Writes>              g_init;          // declared initial delta (an empty list = the canonical empty delta)
+    bool                               g_loop  = false; // self loop through a validity-gated body instead of the line
+    std::int64_t                       g_probe = -1;    // time at which the reader recorder is evaluated without a tick
     constexpr std::int64_t             k_start = 1;   // MIN_ST
 
     struct Rec { std::string delta, value; };
@@ -180,7 +197,7 @@ namespace
 
     template <> struct Shape<S_tss>
     {
-        static bool ok(const W &w, bool init) { return w.op == '+' || (w.op == '-' && !init); }
+        static bool ok(const W &w, bool) { return w.op == '+' || w.op == '-'; }
         static void write(const Out<S_tss> &out, const Writes &ws)
         {
             for (const auto &w : ws)
@@ -197,15 +214,15 @@ namespace
         }
         static Value init(const Writes &ws)
         {
-            std::vector<Int> a;
-            for (const auto &w : ws) { a.push_back(Int{w.p}); }
-            return set_delta<Int>(a, {});
+            std::vector<Int> a, r;
+            for (const auto &w : ws) { (w.op == '+' ? a : r).push_back(Int{w.p}); }
+            return set_delta<Int>(a, r);
         }
     };
 
     template <> struct Shape<S_tsd>
     {
-        static bool ok(const W &w, bool init) { return w.op == '=' || (w.op == '-' && !init); }
+        static bool ok(const W &w, bool) { return w.op == '=' || w.op == '-'; }
         static void write(const Out<S_tsd> &out, const Writes &ws)
         {
             for (const auto &w : ws)
@@ -239,8 +256,58 @@ namespace
         static Value init(const Writes &ws)
         {
             std::map<Int, Int> m;
-            for (const auto &w : ws) { m[Int{w.p}] = Int{w.v}; }
-            return static_node_detail::build_dict_delta<Int, TS<Int>>(m, {});
+            std::vector<Int>   r;
+            for (const auto &w : ws)
+            {
+                if (w.op == '=') { m[Int{w.p}] = Int{w.v}; }
+                else { r.push_back(Int{w.p}); }
+            }
+            return static_node_detail::build_dict_delta<Int, TS<Int>>(m, r);
+        }
+    };
+
+    // TSB{a : TS<Int>, s : TSS<Int>}: token keys  a -> -2,  "s ticked / valid" marker -> -1,  set element e -> e
+    template <> struct Shape<S_tsbs>
+    {
+        static bool ok(const W &w, bool) { return (w.op == '=' && w.p == 0) || w.op == '+' || w.op == '-'; }
+        static void write(const Out<S_tsbs> &out, const Writes &ws)
+        {
+            for (const auto &w : ws)
+            {
+                if (w.op == '=') { out.field<"a">().set(Int{w.v}); }
+                else if (w.op == '+') { (void)out.field<"s">().add(Int{w.p}); }
+                else { (void)out.field<"s">().remove(Int{w.p}); }
+            }
+        }
+        template <typename I> static void describe(const I &in, Toks &d, Toks &v)
+        {
+            leaf(in.template field<"a">(), 0, d, v);
+            for (auto *t : {&d, &v}) { for (auto &e : *t) { e.first = -2; } }
+            auto s = in.template field<"s">();
+            if (s.modified())
+            {
+                d.emplace_back(-1, "s");
+                for (const auto &e : s.added()) { d.emplace_back(e, "+" + std::to_string(e)); }
+                for (const auto &e : s.removed()) { d.emplace_back(e, "-" + std::to_string(e)); }
+            }
+            if (s.valid())
+            {
+                v.emplace_back(-1, "s");
+                for (const auto &e : s.values()) { v.emplace_back(e, std::to_string(e)); }
+            }
+        }
+        static Value init(const Writes &ws)
+        {
+            std::optional<Int> a;
+            std::vector<Int>   add, rem;
+            for (const auto &w : ws)
+            {
+                if (w.op == '=') { a = Int{w.v}; }
+                else { (w.op == '+' ? add : rem).push_back(Int{w.p}); }
+            }
+            // a field the author leaves out keeps its canonical default: typed null for `a`, the EMPTY set delta for `s`
+            if (add.empty() && rem.empty()) { return tsb_delta<S_tsbs>(a, std::nullopt); }
+            return tsb_delta<S_tsbs>(a, set_delta<Int>(add, rem));
         }
     };
 
@@ -274,11 +341,44 @@ namespace
     struct Recorder
     {
         static constexpr auto name = "fbshape_recorder";
+        static void start(NodeScheduler sched)
+        {
+            if (g_probe >= k_start) { sched.schedule(dt(g_probe)); }
+        }
         static void eval(DateTime now, Scalar<"who", Int> who, In<"x", S, InputValidity::Unchecked> x)
         {
+            const bool ticked = x.modified();
+            if (!ticked && !(who.value() && us(now) == g_probe)) { return; }   // only the reader recorder is probed
             Toks d, v;
-            Shape<S>::describe(x, d, v);
-            g_rec[who.value() ? 1 : 0][us(now)] = Rec{braces(d), x.valid() ? braces(v) : std::string("invalid")};
+            if (ticked || x.valid()) { Shape<S>::describe(x, d, v); }
+            g_rec[who.value() ? 1 : 0][us(now)] =
+                Rec{ticked ? braces(d) : std::string("-"), x.valid() ? braces(v) : std::string("invalid")};
+        }
+    };
+
+    // ------------------------------------------------------------------ validity-gated loop bodies (default gate: ALL inputs valid)
+    template <typename S> struct Body;
+    template <> struct Body<S_ts>
+    {
+        static constexpr auto name = "fbshape_body_ts";
+        static void eval(In<"x", TS<Int>> x, In<"prev", S_ts> prev, Out<S_ts> out) { out.set(Int{prev.value() + x.value()}); }
+    };
+    template <> struct Body<S_tss>
+    {
+        static constexpr auto name = "fbshape_body_tss";
+        static void eval(In<"x", TS<Int>> x, In<"prev", S_tss> prev, Out<S_tss> out)
+        {
+            for (const auto &e : prev.values()) { (void)out.add(Int{e}); }
+            (void)out.add(Int{x.value()});
+        }
+    };
+    template <> struct Body<S_tsd>
+    {
+        static constexpr auto name = "fbshape_body_tsd";
+        static void eval(In<"x", TS<Int>> x, In<"prev", S_tsd> prev, Out<S_tsd> out)
+        {
+            for (const auto &[key, child] : prev.valid_items()) { out.set(key.template checked_as<Int>(), Int{child.value()}); }
+            out.set(Int{x.value() % 3}, Int{x.value()});
         }
     };
 
@@ -310,6 +410,29 @@ namespace
         executor.view().run();
     }
 
+    template <typename S>
+    void run_loop()
+    {
+        Wiring w{WiringKind::TopLevel, WiringOptions{}};
+        auto   fb  = g_init ? stdlib::feedback<S>(w, Shape<S>::init(*g_init)) : stdlib::feedback<S>(w);
+        auto   x   = wire<Writer<S_ts>>(w).template as<S_ts>();
+        auto   acc = wire<Body<S>>(w, x, passive(fb())).template as<S>();
+        fb(acc);
+        wire<Recorder<S>>(w, Int{0}, acc);
+        wire<Recorder<S>>(w, Int{1}, fb());
+        GraphBuilder gb = std::move(w).finish();
+        Obs          obs;
+        GraphExecutorBuilder eb;
+        const std::int64_t   end = k_start + static_cast<std::int64_t>(g_script.size());
+        eb.graph_builder(std::move(gb)).mode(GraphExecutorMode::Simulation).start_time(dt(k_start)).end_time(dt(end));
+        eb.add_lifecycle_observer(&obs);
+        GraphExecutorValue executor = eb.make_executor();
+        executor.view().run();
+    }
+
+    std::string g_shape;
+    bool        g_bad = false;
+
     bool parse_writes(const std::string &text, Writes &out)
     {
         std::istringstream is(text);
@@ -339,9 +462,9 @@ namespace
             }
             catch (...) { return false; }
         }
-        // one token per position and cycle
+        // one token per position and cycle (tsbs: field a and the elements of s are different positions)
         std::set<std::int64_t> seen;
-        for (const auto &w : out) { if (!seen.insert(w.p).second) { return false; } }
+        for (const auto &w : out) { if (!seen.insert(g_shape == "tsbs" && w.op == '=' ? -1 : w.p).second) { return false; } }
         return !out.empty();
     }
 
@@ -350,9 +473,6 @@ namespace
         for (const auto &w : ws) { if (!Shape<S>::ok(w, init)) { return false; } }
         return true;
     }
-
-    std::string g_shape;
-    bool        g_bad = false;
 
     bool shape_ok(const Writes &ws, bool init)
     {
@@ -363,6 +483,7 @@ namespace
         if (g_shape == "tsl2") { return all_ok<S_tsl2>(ws, init); }
         if (g_shape == "tss") { return all_ok<S_tss>(ws, init); }
         if (g_shape == "tsd") { return all_ok<S_tsd>(ws, init); }
+        if (g_shape == "tsbs") { return all_ok<S_tsbs>(ws, init); }
         return false;
     }
 
@@ -388,6 +509,8 @@ int main()
     auto reset = [&] {
         g_script.clear();
         g_init.reset();
+        g_loop  = false;
+        g_probe = -1;
         g_shape.clear();
         g_bad = false;
         for (auto &r : g_rec) { r.clear(); }
@@ -404,16 +527,47 @@ int main()
             reset();
             pending.push_back("case " + ws[1]);
         }
-        else if (ws[0] == "shape" && (ws.size() == 2 || (ws.size() == 4 && ws[2] == "init")) && g_shape.empty() && g_script.empty())
+        else if (ws[0] == "shape" && ws.size() >= 2 && g_shape.empty() && g_script.empty())
         {
-            static const std::set<std::string> shapes{"ts", "tsb2", "tsb3", "tsbn", "tsl2", "tss", "tsd"};
+            static const std::set<std::string> shapes{"ts", "tsb2", "tsb3", "tsbn", "tsl2", "tss", "tsd", "tsbs"};
             if (!shapes.count(ws[1])) { pending.push_back("bad-op"); continue; }
             g_shape = ws[1];
-            if (ws.size() == 4)
+            // options in this order: [init <writes>|{}] [loop] [probe <t>]
+            std::size_t i  = 2;
+            bool        ok = true;
+            if (i + 1 < ws.size() && ws[i] == "init")
             {
                 Writes in;
-                if (!parse_writes(ws[3], in) || !shape_ok(in, true)) { g_shape.clear(); pending.push_back("bad-op"); continue; }
-                g_init = in;
+                if (ws[i + 1] == "{}") { ok = g_shape != "ts"; }
+                else { ok = parse_writes(ws[i + 1], in) && shape_ok(in, true); }
+                if (ok) { g_init = in; }
+                i += 2;
+            }
+            if (ok && i < ws.size() && ws[i] == "loop")
+            {
+                ok     = g_shape == "ts" || g_shape == "tss" || g_shape == "tsd";
+                g_loop = true;
+                ++i;
+            }
+            if (ok && i + 1 < ws.size() && ws[i] == "probe")
+            {
+                try
+                {
+                    std::size_t used = 0;
+                    g_probe          = std::stoll(ws[i + 1], &used);
+                    ok               = used == ws[i + 1].size() && g_probe >= k_start && g_probe < 1000;
+                }
+                catch (...) { ok = false; }
+                i += 2;
+            }
+            if (!ok || i != ws.size())
+            {
+                g_shape.clear();
+                g_init.reset();
+                g_loop  = false;
+                g_probe = -1;
+                pending.push_back("bad-op");
+                continue;
             }
             pending.push_back("ok");
         }
@@ -423,7 +577,10 @@ int main()
             else
             {
                 Writes in;
-                if (!parse_writes(ws[1], in) || !shape_ok(in, false)) { pending.push_back("bad-op"); continue; }
+                // loop mode: the script drives x : TS<Int> with non-negative values
+                const bool ok = g_loop ? (parse_writes(ws[1], in) && in.size() == 1 && in[0].op == '=' && in[0].p == 0 && in[0].v >= 0)
+                                       : (parse_writes(ws[1], in) && shape_ok(in, false));
+                if (!ok) { pending.push_back("bad-op"); continue; }
                 g_script.emplace_back(in);
             }
             cyc_slot.push_back(static_cast<int>(pending.size()));
@@ -434,12 +591,16 @@ int main()
             std::string result;
             try
             {
-                if (g_shape == "ts") { run_shape<S_ts>(); }
+                if (g_loop && g_shape == "ts") { run_loop<S_ts>(); }
+                else if (g_loop && g_shape == "tss") { run_loop<S_tss>(); }
+                else if (g_loop) { run_loop<S_tsd>(); }
+                else if (g_shape == "ts") { run_shape<S_ts>(); }
                 else if (g_shape == "tsb2") { run_shape<S_tsb2>(); }
                 else if (g_shape == "tsb3") { run_shape<S_tsb3>(); }
                 else if (g_shape == "tsbn") { run_shape<S_tsbn>(); }
                 else if (g_shape == "tsl2") { run_shape<S_tsl2>(); }
                 else if (g_shape == "tss") { run_shape<S_tss>(); }
+                else if (g_shape == "tsbs") { run_shape<S_tsbs>(); }
                 else { run_shape<S_tsd>(); }
                 std::size_t extra = 0;
                 for (auto t : g_cycles)
